@@ -24,6 +24,7 @@ use vh_engine::{Check, Known, Section, Verdict};
 
 const KEY_CLOSEMID: &str = "C13:failover:http-connection-closed-mid-response-stops-chain";
 const KEY_NEWCLIENT: &str = "C13:cache:new-client-serves-expired-answer-from-cache-dir";
+const KEY_TRUNCATED: &str = "C13:ribbit:truncated-v1-mime-answer-returned-as-success";
 
 /// Infrastructure trouble noticed inside section closures (reported after the section).
 static INFRA: Mutex<Vec<String>> = Mutex::new(Vec::new());
@@ -176,7 +177,7 @@ enum Cls {
     Ambiguous,
     /// transient by the statement; the code stops here (recorded finding KEY_CLOSEMID)
     KnownStop,
-    /// TCP answer cut by a close: the client cannot always tell (no length framing) — any outcome accepted
+    /// V1 MIME answer cut by a close: an error, or the complete answer when only the epilogue was cut
     TcpTruncated(String),
     /// nothing listens: the attempt leaves no trace in the request log
     Unobservable,
@@ -315,12 +316,17 @@ fn judge_network(chain: &[(u8, Cls)], actual: &[u8], res: &Result<String, String
                 if idx != actual.len() {
                     return J::Fail("C13:failover:unexpected-extra-contact".into(), ctx);
                 }
-                classes.push(match res {
-                    Ok(a) if a == full => "tcp-cut-in-epilogue-full-answer",
-                    Ok(_) => "tcp-truncated-answer-accepted",
-                    Err(_) => "tcp-truncated-answer-rejected",
-                });
-                return J::Pass(classes);
+                return match res {
+                    Ok(a) if a == full => {
+                        classes.push("tcp-cut-in-epilogue-full-answer");
+                        J::Pass(classes)
+                    }
+                    Ok(_) => J::Known(KEY_TRUNCATED),
+                    Err(_) => {
+                        classes.push("tcp-truncated-answer-rejected");
+                        J::Pass(classes)
+                    }
+                };
             }
             Cls::Unobservable => unreachable!(),
         }
@@ -536,10 +542,13 @@ async fn scenario(c: &Case, known: &Known) -> Result<Outcome, String> {
                     }
                     J::Known(k) => {
                         if !known.is_open(k) {
+                            if k == KEY_TRUNCATED {
+                                fail!(k, format!("query({ep}): the Ribbit endpoint closed the connection in the middle of a V1 MIME answer ({:?}); the client returned Ok({}) instead of an error (complete answer: {})", tb, short(res.as_ref().map(|x| x.as_str()).unwrap_or("")), short(&doc_fp_of(&tb, &tag))));
+                            }
                             fail!(k, format!("query({ep}): an HTTP endpoint closed the connection mid-response (a transient failure) and no further protocol was tried"));
                         }
                         out.known_hits.push(k.into());
-                        effective_res = res.clone(); // Err: nothing cached
+                        effective_res = res.clone(); // the model follows what the client did
                     }
                     J::Fail(k, m) => fail!(k, format!("query({ep}): {m}")),
                     J::Infra(m) => return Err(m),
@@ -587,7 +596,7 @@ async fn scenario(c: &Case, known: &Known) -> Result<Outcome, String> {
 
 fn doc_fp_of(t: &TcpBeh, tag: &str) -> String {
     match t {
-        TcpBeh::Answer { doc: d, rows, .. } => doc(*d, *rows, tag).1,
+        TcpBeh::Answer { doc: d, rows, .. } | TcpBeh::CloseMid { doc: d, rows, .. } => doc(*d, *rows, tag).1,
         _ => String::new(),
     }
 }
@@ -815,7 +824,7 @@ fn stall_case_st() -> BoxedStrategy<Case> {
 }
 
 fn split_random_st() -> BoxedStrategy<SplitCase> {
-    (any::<u8>(), prop_oneof![3 => 1u8..=4, 2 => Just(20u8), 3 => 100u8..=160], 0u8..N_FMT, any::<bool>(), pts_st(6), any::<u64>())
+    (any::<u8>(), prop_oneof![3 => 1u8..=4, 2 => Just(20u8), 3 => 150u8..=250], 0u8..N_FMT, any::<bool>(), pts_st(6), any::<u64>())
         .prop_map(|(doc, rows, fmt, via_chain, mut points, content_seed)| {
             if points.is_empty() {
                 points.push(Pt { kind: 0, v: (content_seed >> 16) as u16 });
@@ -888,7 +897,7 @@ fn main() {
     ck.assume("packet splits are requested with TCP_NODELAY and a 2 ms pause between segments on a single-threaded runtime; the kernel may still coalesce segments (evidence reports the segmentation asked for)");
     ck.assume("an attempt against a refusing port leaves no trace; contact of such an endpoint is not asserted");
     ck.assume("for bgdl/summary/certs either ribbit_ttl or config_ttl is accepted as the governing TTL (rustdoc is not explicit); TTLs are ZERO or 1 h only");
-    ck.assume("a Ribbit TCP answer cut short by a close is accepted with any outcome (the V1 checksum is optional by rustdoc, V2 text has no framing); only the contact pattern is checked there");
+    ck.assume("\"closed mid-response\" on the Ribbit endpoint always cuts a V1 MIME answer (closing boundary and checksum make the cut detectable); raw V2 text has no framing and is never cut");
     ck.assume("quick tier never waits for a client timeout (TactClient and RibbitClient hard-code 30 s / 10 s and ignore ClientConfig timeouts); stalls run in the thorough tier only");
     let bad = self_test();
     if !bad.is_empty() {
@@ -900,7 +909,7 @@ fn main() {
 
     let known = ck.known().clone();
     let k1 = known.clone();
-    ck.run(Section::pbt("scenarios", tier.pick(300, 20_000), case_st, move |c: &Case| check_scenario(c, &k1)).shards(12).shrink_iters(400));
+    ck.run(Section::pbt("scenarios", tier.pick(2_000, 60_000), case_st, move |c: &Case| check_scenario(c, &k1)).shards(12).shrink_iters(400));
     drain_infra(&mut ck);
 
     ck.run(
@@ -914,7 +923,7 @@ fn main() {
     );
     drain_infra(&mut ck);
 
-    ck.run(Section::pbt("tcp-split-random", tier.pick(150, 20_000), split_random_st, check_split).shards(12).shrink_iters(300));
+    ck.run(Section::pbt("tcp-split-random", tier.pick(600, 40_000), split_random_st, check_split).shards(12).shrink_iters(300));
     drain_infra(&mut ck);
 
     if tier == vh_engine::Tier::Thorough || ck.is_replay() {
